@@ -152,6 +152,8 @@ class ExprMixin:
 
     def ex_UnaryOp(self, e, env):
         v = self.eval(e.operand, env)
+        if isinstance(v, TypingDummy):
+            return TypingDummy("opaque")
         op = {ast.Not: "not", ast.Invert: "invert", ast.USub: "neg", ast.UAdd: "pos"}[type(e.op)]
         if op != "not" and isinstance(v, float):
             return -v if op == "neg" else v
@@ -167,6 +169,8 @@ class ExprMixin:
         return self.binop(self._BIN[type(e.op)], a, b)
 
     def binop(self, op, a, b, inplace=False):
+        if isinstance(a, TypingDummy) or isinstance(b, TypingDummy):
+            return TypingDummy("opaque")
         if ops.is_numeric(a) and ops.is_numeric(b):
             return ops.arith(self, op, a, b)
         if isinstance(a, float) or isinstance(b, float):
